@@ -61,6 +61,10 @@ func main() {
 		writeJSON(*out, res)
 	case "check":
 		os.Exit(cmdCheck(os.Args[2:]))
+	case "serve":
+		os.Exit(cmdServe(os.Args[2:]))
+	case "replay":
+		os.Exit(cmdReplay(os.Args[2:]))
 	default:
 		fmt.Fprintln(os.Stderr, "unknown command", os.Args[1])
 		os.Exit(2)
